@@ -87,13 +87,13 @@ def shapes():
     return out
 
 
-def mk_state(prog, I, st, ps, slots, busy_live=()):
+def mk_state(prog, I, st, ps, slots, busy_live=(), queued=()):
     d = prog.crate.struct('FactoryState')
     dw = prog.crate.struct('WorkerProperties')
 
     def worker(w, kind):
         working = kind == 'drain' or w in busy_live
-        rec = books.mk_worker(prog, I, st, [], (5,) if working else ())
+        rec = books.mk_worker(prog, I, st, [7] if (w in queued and working) else [], (5,) if working else ())
         f = list(rec.fields)
         f[dw['fields'].index('wid')] = I.mk_int(w, 'usize')
         f[dw['fields'].index('is_draining')] = z3.BoolVal(kind == 'drain')
@@ -128,7 +128,8 @@ def read_pool(prog, I, st, fc):
     pool = {}
     for e in fa.fields[d['fields'].index('pool')].fields:
         w = e.fields[1]
-        pool[conc(e.fields[0])] = {'draining': conc(w.fields[dw['fields'].index('is_draining')]), 'busy': len(w.fields[dw['fields'].index('curr_jobs')].fields) > 0,
+        pool[conc(e.fields[0])] = {'draining': conc(w.fields[dw['fields'].index('is_draining')]),
+                                   'busy': len(w.fields[dw['fields'].index('curr_jobs')].fields) > 0 or len(w.fields[dw['fields'].index('message_queue')].fields) > 0,
                                    'actor': ident_of(w.fields[dw['fields'].index('actor')]), 'wid': conc(w.fields[dw['fields'].index('wid')])}
     wba = {e.fields[0].ident[1]: conc(e.fields[1]) for e in fa.fields[d['fields'].index('worker_by_actor')].fields}
     return conc(fa.fields[d['fields'].index('pool_size')]), pool, wba
@@ -216,11 +217,11 @@ def check_supervision(ctx, prog):
     seen = set()
     for ps, slots in shapes():
         present = [w for w, k in enumerate(slots) if k is not None]
-        for who in [('actor%d' % w) for w in present] + ['retired-worker', 'stranger']:
+        for who, queued in [('actor%d' % w, ()) for w in present] + [('actor%d' % w, (w,)) for w in present if slots[w] == 'drain'] + [('retired-worker', ()), ('stranger', ())]:
             for evt in ('ActorTerminated', 'ActorFailed'):
                 I = new_interp(prog)
                 st = State()
-                fc = st.alloc(mk_state(prog, I, st, ps, slots, ()))
+                fc = st.alloc(mk_state(prog, I, st, ps, slots, (), queued))
                 cell = Agg('ActorCell', (Opaque('props', ident=who),))
                 if evt == 'ActorTerminated':
                     ev = Enum('SupervisionEvent', 'ActorTerminated', 1, (cell, models_std.NONE, models_std.NONE))
@@ -241,8 +242,8 @@ def check_supervision(ctx, prog):
                 ctx.absorb(I)
                 ctx.paths += len(done)
                 for k, o in enumerate(done):
-                    name = 'supervision.ps%d.%s.%s.%s.path%d' % (ps, ''.join('L' if x == 'live' else ('D' if x else '-') for x in slots), evt, who, k)
-                    rp = {'pool_size': ps, 'slots': list(slots), 'busy': [], 'op': evt, 'arg': who}
+                    name = 'supervision.ps%d.%s.%s.%s%s.path%d' % (ps, ''.join('L' if x == 'live' else ('D' if x else '-') for x in slots), evt, who, '.queued' if queued else '', k)
+                    rp = {'pool_size': ps, 'slots': list(slots), 'busy': [], 'op': evt, 'arg': who, 'queued': list(queued)}
                     cex = (lambda rp=rp: (lambda m: replay(rp)))()
                     if o.kind != 'ret':
                         lp.record(ctx, name, o.st, {'no_panic': False}, 'C15.pool', on_cex=cex)
@@ -263,12 +264,25 @@ def check_supervision(ctx, prog):
                         replaced = len(spawned) == 1 and w in pool and pool[w]['actor'] == spawned[0]
                         vacated = was_draining and w not in pool and spawned[0:1] == [x for x in spawned if x not in wba][0:1] and len(spawned) <= 1
                         claims['dead_worker_replaced_in_its_slot_or_retired_if_draining'] = who not in wba and (replaced or vacated)
+                        # C13: nothing accepted disappears with the slot - a worker that is stopped and removed holds neither queued nor handed-over jobs
+                        stops = [e for e in o.st.trace if e[0] == 'STOP_WORKER']
+                        claims['a_retired_worker_held_nothing'] = all(e[1] is not None and e[1][0] == [] and e[1][1] == 0 for e in stops)
+                        if queued:
+                            # the job that was queued behind the dead worker's in-flight job is handed to the replacement, which therefore stays
+                            # (or it is still held for the replacement when the hand-over failed; or it was discarded with a reason because its ttl ran out)
+                            _handed, discarded, _rej = C13.fates(o.st.trace)
+                            kept = bool(discarded) or (replaced and pool[w]['busy'] and not stops)
+                            if not kept:
+                                # the only other fate the record knows is ttl expiry (decided per job, symbolic): the path must be one on which the job had expired
+                                ctx.prove(name + '.job_queued_on_the_dead_worker_goes_to_its_replacement_unless_expired', o.st.pc, o.st.ghost.get(('expired', 'q0'), z3.BoolVal(False)),
+                                          group='C15.pool.job_queued_on_the_dead_worker_goes_to_its_replacement', key='C15.pool.job_queued_on_the_dead_worker_goes_to_its_replacement', on_cex=cex)
+                            seen.add('queued_job_survives')
                         seen.add('replaced')
                     else:
                         claims['death_of_an_actor_outside_the_pool_changes_nothing'] = not spawned and sorted(pool) == present and all(pool[w]['actor'] == 'actor%d' % w for w in present)
                         seen.add('ignored')
                     lp.record(ctx, name, o.st, claims, 'C15.pool', on_cex=cex)
-    for w_ in ('replaced', 'ignored'):
+    for w_ in ('replaced', 'ignored', 'queued_job_survives'):
         ctx.note_witness('C15.pool.supervision.' + w_, w_ in seen)
 
 
